@@ -86,12 +86,15 @@ func (p vSvcOrderPlan) class() string {
 }
 
 type vSvcRun struct {
-	Index     int               `json:"index"`
-	Seed      int64             `json:"seed"`
-	Orders    []vSvcOrderPlan   `json:"orders"`
-	MidFlight bool              `json:"close_mid_flight"`
-	Calls     []vs.GateCallView `json:"calls,omitempty"`
-	Notes     []string          `json:"notes,omitempty"`
+	Index     int             `json:"index"`
+	Seed      int64           `json:"seed"`
+	Orders    []vSvcOrderPlan `json:"orders"`
+	MidFlight bool            `json:"close_mid_flight"`
+	// EarlyEvents: the listed (catch-up) orders are also announced while the
+	// start-up order query is still in flight
+	EarlyEvents bool              `json:"announcements_during_startup_query,omitempty"`
+	Calls       []vs.GateCallView `json:"calls,omitempty"`
+	Notes       []string          `json:"notes,omitempty"`
 }
 
 type vSvcState struct {
@@ -283,6 +286,13 @@ func vSvcPlan(r *vs.Rand, idx int) *vSvcRun {
 		run.Orders = append(run.Orders, p)
 	}
 	run.MidFlight = r.Chance(1, 3)
+	hasCatchup := false
+	for _, p := range run.Orders {
+		if p.Catchup {
+			hasCatchup = true
+		}
+	}
+	run.EarlyEvents = hasCatchup && r.Chance(1, 2)
 	return run
 }
 
@@ -330,7 +340,17 @@ func vRunService(run *vSvcRun, seed int64) (*vSvcState, []*order, bool) {
 		}
 	}
 	provider := &ptypes.Provider{Owner: s.prov.String(), Attributes: types.Attributes{{Key: "region", Value: "a"}}}
+	// the start-up query can be held: order announcements that arrive while
+	// it is in flight concern orders that its answer lists as well
+	ordersEntered := make(chan struct{})
+	ordersRelease := make(chan struct{})
+	var enteredOnce sync.Once
+	if !run.EarlyEvents {
+		close(ordersRelease)
+	}
 	sess := venv.NewSessionWith(g, provider, venv.Options{Orders: func(*mtypes.QueryOrdersRequest) (*mtypes.QueryOrdersResponse, error) {
+		enteredOnce.Do(func() { close(ordersEntered) })
+		<-ordersRelease
 		return &mtypes.QueryOrdersResponse{Orders: existing}, nil
 	}})
 	cfg := Config{PricingStrategy: &vPricing{g: g}, Deposit: sdk.NewInt64Coin("uakt", 5000000)}
@@ -373,6 +393,20 @@ func vRunService(run *vSvcRun, seed int64) (*vSvcState, []*order, bool) {
 
 	ctx, cancel := context.WithCancel(context.Background())
 	defer cancel()
+	if run.EarlyEvents {
+		go func() {
+			<-ordersEntered
+			// announcements of listed orders while the start-up query is in flight
+			for i := range run.Orders {
+				p := &run.Orders[i]
+				if p.Catchup && !p.Sentinel {
+					_ = s.bus.Publish(mtypes.NewEventOrderCreated(mtypes.OrderID{Owner: p.Owner, DSeq: p.DSeq, GSeq: 1, OSeq: 1}))
+				}
+			}
+			time.Sleep(time.Duration(r.Intn(300)) * time.Microsecond)
+			close(ordersRelease)
+		}()
+	}
 	svcI, err := NewService(ctx, sess, &vCluster{g: g}, s.bus, cfg)
 	if err != nil {
 		s.note("NewService failed: %v", err)
@@ -546,7 +580,7 @@ func vRunService(run *vSvcRun, seed int64) (*vSvcState, []*order, bool) {
 func vServiceStage(res *vs.Result) {
 	verifhook.Set(vSvcHook)
 	defer verifhook.Set(nil)
-	for _, f := range []string{"service_runs", "service_orders", "service_orders_with_bid", "service_duplicates_consumed_while_first_manager_alive", "service_catchup_orders", "service_closed_mid_flight", "service_orders_won", "service_orders_not_won_with_bid"} {
+	for _, f := range []string{"service_runs", "service_orders", "service_orders_with_bid", "service_duplicates_consumed_while_first_manager_alive", "service_catchup_orders", "service_closed_mid_flight", "service_orders_won", "service_orders_not_won_with_bid", "service_runs_with_announcements_during_startup_query"} {
 		if vs.ReplayFile() == "" {
 			res.Floor(f, 1)
 		}
@@ -558,6 +592,9 @@ func vServiceStage(res *vs.Result) {
 		res.Count("service_runs", 1)
 		if run.MidFlight {
 			res.Count("service_closed_mid_flight", 1)
+		}
+		if run.EarlyEvents {
+			res.Count("service_runs_with_announcements_during_startup_query", 1)
 		}
 		owners := map[string]string{}
 		for _, p := range run.Orders {
